@@ -6,6 +6,7 @@ import (
 	"fmt"
 	"go/token"
 	"go/types"
+	"os"
 	"strings"
 
 	"golang.org/x/tools/go/ssa"
@@ -103,6 +104,12 @@ func (fr *Frame) encode(entry *State) []Exit {
 			}
 		}
 	}
+	// back edges are checked once the whole body is encoded, so that ghost steps and invariants may refer to any call
+	// of the loop body (a call that is not on the path of an edge is simply not reached there)
+	for _, b := range fr.pendingBack {
+		fr.backEdges(b, nil)
+	}
+	fr.pendingBack = nil
 	return exits
 }
 
@@ -246,6 +253,7 @@ func (fr *Frame) cutLoop(li *loopInfo, st *State) {
 			for _, e := range entries {
 				env := fr.envAt(e.info.st)
 				env.phiEdge = &phiSel{block: li.header, predIdx: e.predIdx}
+				env.scopeAt = li.header.Preds[e.predIdx]
 				for _, g := range ghosts {
 					if t, err := env.evalTop(g.Init); err == nil {
 						env.vars[g.Name] = t
@@ -287,6 +295,7 @@ func (fr *Frame) cutLoop(li *loopInfo, st *State) {
 	for _, inv := range invs {
 		env := fr.envAt(st)
 		env.loopHdr = li.header
+		env.scopeAt = li.header
 		for n, t := range li.ghosts {
 			env.vars[n] = t
 		}
@@ -367,6 +376,9 @@ func (fr *Frame) loopOrdinal(h *ssa.BasicBlock) int {
 		if b != h && (pos(b) < pos(h) || (pos(b) == pos(h) && b.Index < h.Index)) {
 			n++
 		}
+	}
+	if os.Getenv("GCV_DEBUG_LOOPS") != "" {
+		fmt.Fprintf(os.Stderr, "loopOrdinal %s header b%d pos %v -> %d\n", fr.fn.Name(), h.Index, fr.fe.eng.prog.Fset.Position(pos(h)), n)
 	}
 	return n
 }
@@ -752,10 +764,10 @@ func (fr *Frame) instr(b *ssa.BasicBlock, in ssa.Instruction, st *State) *Exit {
 		c := fr.val(x.Cond).S
 		fr.edges[edgeKey{b, 0}] = &edgeInfo{cond: fe.define(fe.fresh(fr.prefix+fmt.Sprintf("e_b%d_0", b.Index)), SBool, sAnd(st.alive, c)), st: st.clone()}
 		fr.edges[edgeKey{b, 1}] = &edgeInfo{cond: fe.define(fe.fresh(fr.prefix+fmt.Sprintf("e_b%d_1", b.Index)), SBool, sAnd(st.alive, sNot(c))), st: st.clone()}
-		fr.backEdges(b, st)
+		fr.pendingBack = append(fr.pendingBack, b)
 	case *ssa.Jump:
 		fr.edges[edgeKey{b, 0}] = &edgeInfo{cond: st.alive, st: st.clone()}
-		fr.backEdges(b, st)
+		fr.pendingBack = append(fr.pendingBack, b)
 	case *ssa.Return:
 		var rs []Term
 		for _, r := range x.Results {
@@ -814,6 +826,7 @@ func (fr *Frame) backEdges(b *ssa.BasicBlock, st *State) {
 		for _, g := range fr.loopGhosts(ord) {
 			senv := fr.envAt(e.st)
 			senv.loopHdr = s
+			senv.scopeAt = b
 			for n, t := range li.ghosts {
 				senv.vars[n] = t
 			}
@@ -827,6 +840,7 @@ func (fr *Frame) backEdges(b *ssa.BasicBlock, st *State) {
 		for _, inv := range fr.loopInvariants(ord) {
 			env := fr.envAt(e.st)
 			env.phiEdge = &phiSel{block: s, predIdx: predIdx}
+			env.scopeAt = b
 			for n, t := range stepped {
 				env.vars[n] = t
 			}
